@@ -1,5 +1,5 @@
 (** C03 - Dependencies: never start early; failure/cancel propagates to all dependents. *)
-From HQ Require Import Base.Prelude Cluster.Types Cluster.Core Cluster.Reactor Cluster.Worker Cluster.Server Cluster.Sys Cluster.Monitors Cluster.ProofsJob Cluster.ProofsCore Cluster.ProofsMore Cluster.BijFinal Cluster.RejHyp Cluster.InvAll.
+From HQ Require Import Base.Prelude Cluster.Types Cluster.Core Cluster.Reactor Cluster.Worker Cluster.Server Cluster.Sys Cluster.Monitors Cluster.ProofsJob Cluster.ProofsCore Cluster.ProofsMore Cluster.BijFinal Cluster.RejHyp Cluster.InvAll Cluster.NoPanicU0 Cluster.NoPanicU1 Cluster.NoPanicU20 Cluster.NoFresh.
 From Coq Require Import ZArith.
 Local Open Scope N_scope.
 
@@ -36,7 +36,20 @@ Theorem C03_ready_task_has_no_pending_dependency : forall ops reserve maxfill s 
   forall d, In d (t_deps t) -> find_task (c_tasks (s_core s)) d = None.
 Proof. exact ready_task_has_no_pending_dependency. Qed.
 
+(** The same under the static well-formedness [ops_ok] instead of [run_fresh] (derived: NoFresh.v). *)
+Theorem C03_dependency_invariant_static : forall ops reserve maxfill s outs,
+  Forall op_wf ops -> ops_ok (init_sys reserve maxfill) ops = true -> run (init_sys reserve maxfill) ops = Ok (s, outs) ->
+  forallb (deps_ok (s_core s)) (c_tasks (s_core s)) = true.
+Proof. exact deps_invariant_ops. Qed.
+Theorem C03_placed_task_has_no_pending_dependency_static : forall ops reserve maxfill s outs,
+  Forall op_wf ops -> ops_ok (init_sys reserve maxfill) ops = true -> run (init_sys reserve maxfill) ops = Ok (s, outs) ->
+  forall t, In t (c_tasks (s_core s)) -> (match t_state t with Waiting _ => False | _ => True end) ->
+  forall d, In d (t_deps t) -> find_task (c_tasks (s_core s)) d = None.
+Proof. exact placed_task_has_no_pending_dependency_ops. Qed.
+
 Print Assumptions C03_dependency_invariant.
 Print Assumptions C03_placed_task_has_no_pending_dependency.
 Print Assumptions C03_ready_task_has_no_pending_dependency.
 Print Assumptions C03_take_one_highest.
+Print Assumptions C03_dependency_invariant_static.
+Print Assumptions C03_placed_task_has_no_pending_dependency_static.
